@@ -582,6 +582,7 @@ def main(tier):
     tb = ["Coq 8.16.1 kernel; vm_compute for the heap refuted witnesses and Examples", "axioms under Print Assumptions: " + (", ".join(sorted(axioms)) or "none (Closed under the global context)"),
           "extraction: ExtrOcamlBasic only; OCaml 4.13.1", "harness/c15_guards.json (reviewed guard table) and lib/c15_util.scan_guards (regex scanner of the skeleton sources: function body, `if(ASN__STACK_OVERFLOW_CHECK(` followed by a failure, ber_check_tags call)",
           "lib/c15_util.py: type graphs of the hand-written modules (NODES/EDGES), input generators; harness/moddrv_c15.inc (meter: --wrap malloc family, malloc_usable_size; stack extent sampled at allocations)",
+          "lib/c15_sweep.py (type table of module C15D, per-syntax input builders), the LP64 struct sizes of checks/c15.py STRUCT (OCTET_STRING_t 40, BIT_STRING_t 48, list head 48) and the 8-byte pointer of set_add; dmeterb's refusing allocator (32 MiB per request)",
           "gcc -O1 with and without ASan/UBSan, LP64, setrlimit(RLIMIT_STACK) in child processes; frame sizes and stack exhaustion are observed, not proved"]
     return run.finish("proof", (nthm, ndis), trusted_base=tb,
                       checker_cmd="make -C /verif all && coqc -Q coq A1 coq/Props/Properties_C15.v",
@@ -592,7 +593,8 @@ def main(tier):
                                  "traces_validated_against_impl": run.cov["evaluations"]},
                       assumptions=["PARTIAL: the theorems are about a call-graph model and the reference decoders; frame sizes, stack exhaustion and the allocator are observed at run time on this build only",
                                    "recursive types covered: the hand-written shapes of modules C15A/B/C (SEQUENCE, SEQUENCE OF, SET OF, CHOICE, EXPLICIT tag, CHOICE through SEQUENCE, extension addition, constructed strings, ANY, skipped extensions); SET, open types of information object sets and APER are not exercised",
-                                   "heap constants are per type class (notes/design/C15.md) and hold for requested sizes as reported by ASan's malloc_usable_size"])
+                                   "heap constants are per type class (notes/design/C15.md) and hold for requested sizes as reported by ASan's malloc_usable_size",
+                                   "the allocation-metered model (coq/Rt/HeapBound.v) covers the UPER decoders of strings and SEQUENCE OF / SET OF; OER, BER, XER, members, open types and length-prefixed primitives are held to the oracle only; restricted alphabets on random tails and zero-bit values are not compared with the model"])
 
 
 if __name__ == "__main__":
